@@ -182,11 +182,28 @@ class Compiler:
         if arg is not None:
             if opcode in self._JUMP_OPCODES:
                 # 16-bit little-endian for jump targets
+                self._check_jump_target(arg)
                 self.bytecode.append(arg & 0xFF)
                 self.bytecode.append((arg >> 8) & 0xFF)
             else:
+                if not 0 <= arg <= 0xFF:
+                    # Operands are one byte: a function may use at most 256
+                    # constants, names, locals, call arguments or literal elements
+                    raise JSSyntaxError(
+                        f"Program too large: {opcode.name} operand {arg} "
+                        f"exceeds the limit of 255"
+                    )
                 self.bytecode.append(arg)
         return pos
+
+    def _check_jump_target(self, target: int) -> None:
+        """Jump targets are two bytes: refuse code that does not fit rather
+        than wrapping the target around."""
+        if not 0 <= target <= 0xFFFF:
+            raise JSSyntaxError(
+                f"Program too large: jump target {target} exceeds the limit "
+                f"of 65535 bytes of code per function"
+            )
 
     def _set_loc(self, node: Node) -> None:
         """Set current source location from an AST node."""
@@ -211,6 +228,7 @@ class Compiler:
         """
         if target is None:
             target = len(self.bytecode)
+        self._check_jump_target(target)
         self.bytecode[pos + 1] = target & 0xFF  # Low byte
         self.bytecode[pos + 2] = (target >> 8) & 0xFF  # High byte
 
